@@ -61,6 +61,12 @@ func makeConfigMapValueRNode(s string) (field string, rN *RNode) {
 	}
 	if strings.Contains(yN.Value, "\n") {
 		yN.Style = LiteralStyle
+		if strings.HasPrefix(yN.Value, "\t") {
+			// go-yaml cannot read back a literal block scalar whose first
+			// character is a tab ("found a tab character where an
+			// indentation space is expected"): write it quoted.
+			yN.Style = DoubleQuotedStyle
+		}
 	}
 	return field, NewRNode(yN)
 }
